@@ -104,13 +104,134 @@ def _eq_literal_facts(node, stop):
     return out
 
 
+class OpBranch:
+    """One operator's evaluation code: an if/elif branch of _val_matches or a row of a dispatch table."""
+
+    def __init__(self, lit, fi, node, body, val, exp, host=None, site=None):
+        self.lit = lit          # operator token
+        self.fi = fi            # function whose module holds `node` (for file:line)
+        self.node = node        # the If / the table row value
+        self.body = body        # statements whose returns are the branch's result
+        self.val = val          # name of the field value inside body
+        self.exp = exp          # name of the expected value inside body
+        self.host = host        # FuncInfo when the body is another function's body
+        self.site = site        # call in _val_matches through which the row runs (None for if-branches)
+
+
+# operator-module functions: name -> (kind, ast op); operator.f(a, b) applies the op to (a, b)
+STD_OPERATOR = {"eq": ast.Eq, "ne": ast.NotEq, "lt": ast.Lt, "le": ast.LtE, "gt": ast.Gt, "ge": ast.GtE,
+                "is_": ast.Is, "is_not": ast.IsNot}
+STD_OPERATOR_BIN = {"and_": ast.BitAnd, "or_": ast.BitOr, "xor": ast.BitXor, "add": ast.Add, "sub": ast.Sub,
+                    "mod": ast.Mod, "mul": ast.Mult}
+
+
+def _table_dict(repo, fi, e) -> Optional[ast.Dict]:
+    """Dict literal a table expression (NAME / self.NAME / cls.NAME / Class.NAME) is bound to."""
+    v = None
+    if isinstance(e, ast.Name):
+        v = repo.module_assign(fi.module, e.id)
+    elif isinstance(e, ast.Attribute) and isinstance(e.value, ast.Name):
+        if e.value.id in ("self", "cls") and fi.cls is not None:
+            v = repo.class_attr(fi.cls, e.attr)
+        else:
+            ci = repo.resolve_class(e.value.id, fi.module)
+            if ci is not None:
+                v = repo.class_attr(ci, e.attr)
+    return v if isinstance(v, ast.Dict) else None
+
+
+def _lookup_of(repo, fi, e) -> Optional[Tuple[ast.Dict, ast.AST]]:
+    """e is `TABLE[key]` or `TABLE.get(key, ...)` on a dict-literal table -> (table, key expr)."""
+    if isinstance(e, ast.Subscript) and not isinstance(e.slice, ast.Slice):
+        d = _table_dict(repo, fi, e.value)
+        if d is not None:
+            return d, e.slice
+    if isinstance(e, ast.Call) and isinstance(e.func, ast.Attribute) and e.func.attr == "get" and e.args:
+        d = _table_dict(repo, fi, e.func.value)
+        if d is not None:
+            return d, e.args[0]
+    return None
+
+
+def resolve_dispatch(repo, fi, call: ast.Call) -> Optional[Tuple[ast.Dict, ast.AST]]:
+    """A call whose callee comes out of a dict-literal dispatch table, directly (`T[k](...)`) or through a
+    local (`fn = T.get(k) ...; fn(...)`) -> (table, key expr)."""
+    f = call.func
+    hit = _lookup_of(repo, fi, f)
+    if hit:
+        return hit
+    if isinstance(f, ast.Name):
+        found = []
+        for st in stores(top_fn(fi).node if fi.parent_fn else fi.node):
+            if st.path == f.id and st.kind == "assign" and st.value is not None:
+                for n in ast.walk(st.value):
+                    h = _lookup_of(repo, fi, n)
+                    if h:
+                        found.append(h)
+        if len(found) == 1:
+            return found[0]
+    return None
+
+
+def _row_code(repo, fi, v, args_names: List[Optional[str]], val_p, exp_p):
+    """Code of one table row called as row(*args): (body stmts, val name, exp name, host FuncInfo|None)."""
+    def pick(params):
+        m = {}
+        for pname, aname in zip(params, args_names):
+            if aname == val_p:
+                m["val"] = pname
+            elif aname == exp_p:
+                m["exp"] = pname
+        if set(m) != {"val", "exp"}:
+            raise AnalysisError("dispatch call does not pass (val, expected) positionally")
+        return m["val"], m["exp"]
+    if isinstance(v, ast.Lambda):
+        val, exp = pick([a.arg for a in v.args.args])
+        ret = ast.Return(value=v.body)
+        ret._parent = v  # type: ignore[attr-defined]
+        ast.copy_location(ret, v)
+        return [ret], val, exp, None
+    if isinstance(v, ast.Name):
+        cands = [g for g in repo.funcs.get(v.id, []) if g.module is fi.module and g.cls is None and g.parent_fn is None]
+        if len(cands) == 1:
+            val, exp = pick([a.arg for a in cands[0].node.args.args])
+            return cands[0].node.body, val, exp, cands[0]
+    # operator.<fn> (module alias) or a name imported from operator
+    target = None
+    if isinstance(v, ast.Attribute) and isinstance(v.value, ast.Name) and fi.module.imports.get(v.value.id) == "operator":
+        target = v.attr
+    elif isinstance(v, ast.Name) and fi.module.imports.get(v.id, "").startswith("operator."):
+        target = fi.module.imports[v.id].split(".", 1)[1]
+    if target is not None:
+        a0, a1 = ast.Name(id="a", ctx=ast.Load()), ast.Name(id="b", ctx=ast.Load())
+        val, exp = pick(["a", "b"])
+        if target in STD_OPERATOR:
+            expr = ast.Compare(left=a0, ops=[STD_OPERATOR[target]()], comparators=[a1])
+        elif target in STD_OPERATOR_BIN:
+            expr = ast.BinOp(left=a0, op=STD_OPERATOR_BIN[target](), right=a1)
+        elif target == "contains":
+            expr = ast.Compare(left=a1, ops=[ast.In()], comparators=[a0])
+        else:
+            raise AnalysisError(f"dispatch row uses operator.{target}, which the checker has no model for")
+        ret = ast.Return(value=expr)
+        for n in ast.walk(ret):
+            ast.copy_location(n, v)
+            for ch in ast.iter_child_nodes(n):
+                ch._parent = n  # type: ignore[attr-defined]
+        ret._parent = v  # type: ignore[attr-defined]
+        return [ret], val, exp, None
+    raise AnalysisError(f"unsupported dispatch table row `{norm(v)}`")
+
+
 def val_matches_branches(ctx):
-    """operator literal -> list of If nodes whose test is `<operator param> == literal` in _val_matches."""
-    f = ctx.repo.fn("AbstractMessageLogEntry._val_matches")
+    """operator literal -> [OpBranch]: if/elif branches testing `<operator param> == literal` and rows of
+    dict-literal dispatch tables indexed by the operator parameter."""
+    repo = ctx.repo
+    f = repo.fn("AbstractMessageLogEntry._val_matches")
     params = [a.arg for a in f.node.args.args]
     ctx.require(len(params) >= 4, "_val_matches signature changed (self, operator, val, expected)")
     op_p, val_p, exp_p = params[1], params[2], params[3]
-    branches: Dict[str, List[ast.If]] = {}
+    branches: Dict[str, List[OpBranch]] = {}
     for n in walk(f.node):
         if isinstance(n, ast.If):
             for e, pol in atoms(n.test, True):
@@ -119,7 +240,20 @@ def val_matches_branches(ctx):
                     if isinstance(l, ast.Constant):
                         l, r = r, l
                     if isinstance(l, ast.Name) and l.id == op_p and isinstance(r, ast.Constant) and isinstance(r.value, str):
-                        branches.setdefault(r.value, []).append(n)
+                        branches.setdefault(r.value, []).append(OpBranch(r.value, f, n, n.body, val_p, exp_p))
+        elif isinstance(n, ast.Call):
+            hit = resolve_dispatch(repo, f, n)
+            if hit is None:
+                continue
+            table, key = hit
+            if not (isinstance(key, ast.Name) and key.id == op_p):
+                continue
+            args_names = [a.id if isinstance(a, ast.Name) else None for a in n.args]
+            for k, v in zip(table.keys, table.values):
+                if not (isinstance(k, ast.Constant) and isinstance(k.value, str)):
+                    raise AnalysisError(f"operator dispatch table has a non-literal key `{norm(k) if k else '**'}`")
+                body, val, exp, host = _row_code(repo, f, v, args_names, val_p, exp_p)
+                branches.setdefault(k.value, []).append(OpBranch(k.value, host or f, v, body, val, exp, host, n))
     return f, (op_p, val_p, exp_p), branches
 
 
@@ -181,17 +315,17 @@ def r2(ctx, rules):
     for lit in g_ops:
         ctx.ob("C18.R2", f"operator {lit!r} has a branch in _val_matches", lit in branches, ctx.w(gf, lst),
                "the grammar accepts this token but the evaluator raises 'Unexpected operator' for it")
-    for lit, ifs in sorted(branches.items()):
+    for lit, brs in sorted(branches.items()):
         if lit not in g_ops:
             ctx.note(f"C18.R2: _val_matches has a branch for {lit!r} which the grammar never produces (dead branch)")
-        ctx.ob("C18.R2", f"operator {lit!r} has a single branch", len(ifs) == 1, ctx.w(f, ifs[0]),
-               "two branches test the same token: the second is dead")
-        sem = _branch_matches_semantics(ifs[0].body, lit, val_p, exp_p)
+        ctx.ob("C18.R2", f"operator {lit!r} has a single branch", len(brs) == 1, ctx.w(brs[0].fi, brs[0].node),
+               "two branches / table rows handle the same token: one of them is dead")
+        sem = _branch_matches_semantics(brs[0].body, lit, brs[0].val, brs[0].exp)
         if sem is None:
             ctx.note(f"C18.R2: operator {lit!r} is not in the checker's semantics table (branch not compared)")
         else:
             ctx.ob("C18.R2", f"operator {lit!r} branch applies its own operation to (val, expected)", sem,
-                   ctx.w(f, ifs[0]), "the value returned for this token is not the comparison the token denotes")
+                   ctx.w(brs[0].fi, brs[0].node), "the value returned for this token is not the comparison the token denotes")
     # an operator-less selector means truthiness of the value
     # boolean tokens -> node classes
     ef, elst = operator_choice(ctx, rules, "expression")
@@ -455,7 +589,9 @@ def r4(ctx):
     f, (op_p, val_p, exp_p), branches = val_matches_branches(ctx)
     cfg = CFG(f.node)
     ops = type_dependent_ops(f.node, val_p)
-    ctx.floor("C18.R4", "type-dependent operations on the field value", len(ops), 6)
+    n_row_ops = sum(len(type_dependent_ops(br.host.node if br.host is not None else ast.Module(body=br.body, type_ignores=[]), br.val))
+                    for brs in branches.values() for br in brs if br.site is not None)
+    ctx.floor("C18.R4", "type-dependent operations on the field value", len(ops) + n_row_ops, 6)
     # call sites (fallback guard)
     sites = [(g, c) for g, c in callers_of(repo, "_val_matches")]
     ctx.floor("C18.R4", "_val_matches call sites", len(sites), 3)
@@ -477,6 +613,26 @@ def r4(ctx):
         toks = sorted({l for _, l, h in _eq_literal_facts(op, f.node) if h})
         ctx.ob("C18.R4", f"_val_matches[{'/'.join(toks) or '-'}]: {label} cannot raise out of the filter", ok,
                ctx.w(f, op), why or "")
+    # operations living in dispatch-table rows: an exception surfaces at the dispatching call
+    for lit, brs in sorted(branches.items()):
+        for br in brs:
+            if br.site is None:
+                continue
+            scope = br.host.node if br.host is not None else ast.Module(body=br.body, type_ignores=[])
+            hcfg = CFG(br.host.node) if br.host is not None else None
+            for op, label in type_dependent_ops(scope, br.val):
+                needed = _needed_exceptions(op)
+                why = "unguarded"
+                if br.host is not None:
+                    isinst = any(pol and isinstance(e, ast.Call) and ap(e.func) == "isinstance" and e.args and
+                                 isinstance(e.args[0], ast.Name) and e.args[0].id == br.val
+                                 for e, pol in facts(op, br.host.node))
+                    why = None if isinst else _guard_of(op, br.host.node, hcfg, needed)
+                if why is not None:
+                    why = _guard_of(br.site, f.node, cfg, needed)
+                ok = why is None or sites_guarded(needed)
+                ctx.ob("C18.R4", f"_val_matches[{lit}]: {label} cannot raise out of the filter", ok, ctx.w(br.fi, br.node),
+                       why or "")
     r4_result_is_bool(ctx)
 
 
@@ -534,6 +690,50 @@ def _boolish(repo, f, e, depth=0, site=None) -> Tuple[str, List[Tuple[Any, ast.A
                 if kinds <= {"none"}:
                     return "none", []
                 return "bool-or-none", []
+        hit = resolve_dispatch(repo, f, e)
+        if hit is not None:
+            kinds, culprits = set(), []
+            for k, v in zip(hit[0].keys, hit[0].values):
+                if isinstance(v, ast.Lambda):
+                    kk, cc = _boolish(repo, f, v.body, depth + 1)
+                    # lambda parameters are opaque: only the shape of the body counts
+                    if kk == "other" and isinstance(v.body, (ast.Name,)):
+                        cc = [(f, v)]
+                    kinds.add(kk)
+                    culprits.extend(cc)
+                    continue
+                target = None
+                if isinstance(v, ast.Attribute) and isinstance(v.value, ast.Name) and f.module.imports.get(v.value.id) == "operator":
+                    target = v.attr
+                elif isinstance(v, ast.Name) and f.module.imports.get(v.id, "").startswith("operator."):
+                    target = f.module.imports[v.id].split(".", 1)[1]
+                if target is not None:
+                    if target in STD_OPERATOR or target in ("contains", "not_", "truth"):
+                        kinds.add("bool")
+                    else:
+                        kinds.add("other")
+                        culprits.append((f, v))
+                    continue
+                g = None
+                if isinstance(v, ast.Name):
+                    cands = [x for x in repo.funcs.get(v.id, []) if x.module is f.module and x.cls is None and x.parent_fn is None]
+                    g = cands[0] if len(cands) == 1 else None
+                if g is None:
+                    kinds.add("other")
+                    culprits.append((f, v))
+                    continue
+                for r in returns_of(g.node):
+                    if r.value is None:
+                        kinds.add("none")
+                        continue
+                    kk, cc = _boolish(repo, g, r.value, depth + 1)
+                    kinds.add(kk)
+                    culprits.extend(cc)
+            if culprits or "other" in kinds:
+                return "other", culprits or [(f, e)]
+            if kinds <= {"bool"}:
+                return "bool", []
+            return "bool-or-none", []
         return "other", [(f, e)]
     if isinstance(e, ast.BoolOp):
         parts = [_boolish(repo, f, v, depth + 1, site) for v in e.values]
@@ -740,6 +940,15 @@ def r5(ctx):
                    "the view is changed by something other than filtering retained entries")
             continue
         matched, source, excl = _comp_checked(comp, sf.node)
+        if source and "." not in source:
+            # a local bound once to (a copy of) one of the two buffers
+            vals = [x.value for x in stores(sf.node) if x.path == source and x.kind == "assign" and x.value is not None]
+            if len(vals) == 1:
+                v0 = vals[0]
+                if isinstance(v0, ast.Call) and ap(v0.func) in ("list", "tuple") and len(v0.args) == 1:
+                    v0 = v0.args[0]
+                if ap(v0) in ("self._raw_entries", "self._filtered_entries"):
+                    source = ap(v0)
         ctx.ob("C18.R5", f"set_filter: view part from {source} is filtered by self.filter.match", matched, where,
                "entries enter the view without matching the new filter")
         if source == "self._raw_entries":
@@ -973,6 +1182,41 @@ def r6(ctx):
         if k in wmap and k in rmap and wmap[k] and rmap[k]:
             ctx.ob("C18.R6", f"Message: key {k!r} carries the same attribute both ways", wmap[k] == rmap[k], mf.where,
                    f"to_dict stores self.{wmap[k]}, from_dict assigns msg.{rmap[k]}")
+    # per-key effects: to_dict emits a (possibly empty) list per block name; from_dict must recreate the list
+    # independently of its elements
+    def per_key_effect(fn_info, outer: ast.For, key_name: str, list_name: Optional[str]) -> bool:
+        for n in walk(ast.Module(body=outer.body, type_ignores=[])):
+            inner = [a for a in ancestors(n) if isinstance(a, (ast.For, ast.While, ast.If)) and
+                     any(x is outer for x in ancestors(a))]
+            blocked = False
+            for a in inner:
+                if isinstance(a, (ast.For, ast.While)):
+                    blocked = True
+                elif list_name and list_name in {x.id for x in ast.walk(a.test) if isinstance(x, ast.Name)}:
+                    blocked = True
+            if blocked:
+                continue
+            if isinstance(n, ast.Call) and any(isinstance(a, ast.Name) and a.id == key_name for a in n.args) and \
+                    isinstance(n.func, ast.Attribute) and (ap(n.func) or "").split(".")[0] not in ("LOG", "logging", "logger"):
+                return True
+            if isinstance(n, ast.Subscript) and isinstance(n.ctx, ast.Store) and isinstance(n.slice, ast.Name) and \
+                    n.slice.id == key_name:
+                return True
+        return False
+    w_loops = [l for l in walk(mt.node) if isinstance(l, ast.For) and isinstance(l.target, ast.Name) and
+               (ap(l.iter) or "").replace(".keys()", "").replace(".items()", "") == "self.blocks"]
+    r_loops = [l for l in walk(mf.node) if isinstance(l, ast.For) and isinstance(l.target, ast.Tuple) and len(l.target.elts) == 2 and
+               all(isinstance(t, ast.Name) for t in l.target.elts) and isinstance(l.iter, ast.Call) and call_attr(l.iter) == "items" and
+               "body" in list(_const_keys_read(l.iter, dv))]
+    ctx.require(len(w_loops) == 1 and len(r_loops) == 1,
+                f"Message.to_dict/from_dict: block loops not found (writer {len(w_loops)}, reader {len(r_loops)})")
+    w_emits = per_key_effect(mt, w_loops[0], w_loops[0].target.id, None)
+    r_key, r_list = r_loops[0].target.elts[0].id, r_loops[0].target.elts[1].id
+    r_creates = per_key_effect(mf, r_loops[0], r_key, r_list)
+    ctx.ob("C18.R6", "Message.from_dict recreates every block list to_dict emits, also an empty one",
+           (not w_emits) or r_creates, ctx.w(mf, r_loops[0]),
+           f"to_dict writes an entry for every block name (possibly []), but from_dict only acts on `{r_key}` inside the "
+           f"loop over `{r_list}`: a zero-length block list vanishes on import")
     # LLUDP entry exports the extended form
     lt = repo.fn("LLUDPMessageLogEntry.to_dict")
     ext = [c for c in find_calls(lt.node, "to_dict") if ap(c.func) != "super().to_dict"]
@@ -981,6 +1225,80 @@ def r6(ctx):
                             (ext[0].args and isinstance(ext[0].args[0], ast.Constant) and ext[0].args[0].value is True))
     ctx.ob("C18.R6", "LLUDPMessageLogEntry.to_dict exports Message.to_dict(extended=True)", ok, lt.where,
            "packet id, flags, direction, acks, meta are not exported")
+
+
+
+# --------------------------------------------------------------------------- R7 selection loops
+
+def _is_success(e, pol) -> bool:
+    """The condition says that the field at hand satisfies the filter node: a truthy _val_matches(...),
+    or `<matcher>.value is None` (existence-only selector)."""
+    if isinstance(e, ast.UnaryOp) and isinstance(e.op, ast.Not):
+        return _is_success(e.operand, not pol)
+    if isinstance(e, ast.BoolOp):
+        if isinstance(e.op, ast.Or) and pol:
+            return all(_is_success(v, True) for v in e.values)
+        if isinstance(e.op, ast.And) and pol:
+            return any(_is_success(v, True) for v in e.values)
+        return False
+    if isinstance(e, ast.Call) and call_attr(e) == "_val_matches":
+        return pol
+    if isinstance(e, ast.Compare) and len(e.ops) == 1 and isinstance(e.comparators[0], ast.Constant) and \
+            e.comparators[0].value is None and (ap(e.left) or "").endswith(".value"):
+        return (isinstance(e.ops[0], ast.Is) and pol) or (isinstance(e.ops[0], ast.IsNot) and not pol)
+    return False
+
+
+def r7(ctx):
+    repo = ctx.repo
+    ctx.rule("C18.R7", "'some selected field satisfies it': in LLUDPMessageLogEntry.matches (and helpers) a field is "
+                       "recorded only under a successful comparison, and a loop over candidate fields is left early "
+                       "(break / return) only after a hit")
+    from .common import class_methods_reachable
+    start = repo.fn("LLUDPMessageLogEntry.matches")
+    fns = [g for g in class_methods_reachable(repo, start, depth=2)
+           if g.module.rel == LOGR and g.name not in ("_val_matches", "_base_matches", "_packet_root_matches", "_get_meta")]
+    n_exits = n_hits = 0
+    for g in fns:
+        found = set()
+        for st in stores(g.node, into_defs=False):
+            if st.kind == "assign" and isinstance(st.target, ast.Name) and isinstance(st.value, ast.List) and not st.value.elts:
+                found.add(st.path)
+        hits = [c for c in calls(g.node) if isinstance(c.func, ast.Attribute) and c.func.attr in ("append", "add", "extend") and
+                isinstance(c.func.value, ast.Name) and c.func.value.id in found and
+                any(isinstance(a, (ast.For, ast.While)) for a in ancestors(c))]
+        cfg = None
+        for h in hits:
+            n_hits += 1
+            ctx.ob("C18.R7", f"{g.qual}: `{norm(h)}` records a field only when it satisfies the comparison",
+                   any(_is_success(e, pol) for e, pol in facts(h, g.node)), ctx.w(g, h),
+                   "a field is reported as matching without a successful _val_matches / existence test")
+        for n in walk(g.node):
+            if not isinstance(n, (ast.Break, ast.Return)):
+                continue
+            loops = [a for a in ancestors(n) if isinstance(a, (ast.For, ast.While))]
+            if not loops:
+                continue
+            n_exits += 1
+            fs = facts(n, g.node)
+            ok = any(_is_success(e, pol) for e, pol in fs) or \
+                any(pol and isinstance(e, ast.Name) and e.id in found for e, pol in fs)
+            if not ok and hits:
+                cfg = cfg or CFG(g.node)
+                heads = cfg.nodes_for(loops[0])
+                hn = {x for h in hits for x in cfg.stmt_nodes_containing(h)}
+                me = cfg.nodes_for(n)
+                if heads and me:
+                    reach = cfg.reachable(heads, avoid=lambda x: x in hn or x in heads, exc=False)
+                    ok = not any(x in reach for x in me)
+            kind = "break" if isinstance(n, ast.Break) else f"`{norm(n)}`"
+            ctx.ob("C18.R7", f"{g.qual}: {kind} inside `for {norm(loops[0].target)} in {norm(loops[0].iter)}` only after a hit"
+                   if isinstance(loops[0], ast.For) else f"{g.qual}: {kind} inside a while loop only after a hit",
+                   ok, ctx.w(g, n),
+                   "the loop over candidate fields stops although the current candidate did not satisfy the comparison: "
+                   "later candidates that do satisfy it are never tried")
+    ctx.floor("C18.R7", "early exits from field-selection loops", n_exits, 2)
+    ctx.floor("C18.R7", "recorded hits", n_hits, 2)
 
 
 def run(ctx):
@@ -992,6 +1310,7 @@ def run(ctx):
     r4(ctx)
     r5(ctx)
     r6(ctx)
+    r7(ctx)
     ctx.assume("arpeggio semantics: python list = ordered choice committing to the first matching alternative, "
                "string alternatives match by prefix; regex alternatives are not compared")
     ctx.assume("child filter nodes return MatchResult(False, []) | MatchResult(True, fields) (fields possibly empty)")
